@@ -478,13 +478,40 @@ def v_send_cases(cases):
                                                 v_obs(c['obs'] + [[[c['next_after'], 1], 1]])) for c in cases) + ']'
 
 
+def runs_msgs(msgs):
+    out = []
+    for lab, n in msgs:
+        if out and out[-1][0] == lab and out[-1][1] == n:
+            out[-1][2] += 1
+        else:
+            out.append([lab, n, 1])
+    return out
+
+
+def runs_exp(exp):
+    """[outcome, buflen] list -> arithmetic progressions [outcome, first, step, count]"""
+    out = []
+    for o, b in exp:
+        if out:
+            r = out[-1]
+            if r[0] == o and r[3] == 1:
+                r[2] = b - r[1]
+                r[3] = 2
+                continue
+            if r[0] == o and r[1] + r[2] * r[3] == b:
+                r[3] += 1
+                continue
+        out.append([o, b, 0, 1])
+    return out
+
+
 def v_recv_case(grp):
     good = sum(m[1] for m in grp['msgs'])
     if 'good' in grp:
         good = grp['good']
-    msgs = '[' + '; '.join('(%d, %d)' % (m[0], m[1]) for m in grp['msgs']) + ']'
-    exp = '[' + '; '.join('[%d; %d]' % (e[0], e[1]) for e in grp['exp']) + ']'
-    return '(check_recv %d %s %s)' % (good, msgs, exp)
+    msgs = '[' + '; '.join('(%d, %d, %d)' % tuple(m) for m in runs_msgs(grp['msgs'])) + ']'
+    exp = '[' + '; '.join('(%d, %d, %s, %d)' % (e[0], e[1], vz(e[2]), e[3]) for e in runs_exp(grp['exp'])) + ']'
+    return '(check_recv_c %s %s %s)' % (vz(good), msgs, exp)
 
 
 def shape_code(command):
@@ -557,7 +584,16 @@ def _run_e2e_job(job, out):
     cl.rec.close()
     log = cl.leader_log()
     psizes = [len(P.dumps(e)) for e in log]
-    sends = [s for s in cl.rec.sends if s['src'] == cl.leader]
+    sends = []
+    n_hb = 0
+    for s in cl.rec.sends:
+        if s['src'] != cl.leader:
+            continue
+        if s['n_msgs'] == 1 and s['obs'][0][0][0] == 3 and s['obs'][0][0][3] == 0:
+            n_hb += 1
+            if n_hb > 8:          # heartbeats are all alike: a few per run are enough
+                continue
+        sends.append(s)
     groups = cl.rec.groups
     name = 'log_%s' % job['id']
     defs = v_log(name, log, psizes)
@@ -694,21 +730,42 @@ def _run_pure_job(job, out):
         # ---- receiver: piece sequences with (possibly) wrong labels, straight into the handler ----
         flog = g(fo, 'raftLog')
         prev_idx, prev_term = flog[-1][1], flog[-1][2]
-        entry = (b'\x01' + b'x' * rng.choice([0, 5, B, 2 * B + 3][:3 if B > 5000 else 4]), prev_idx + 1, max(prev_term, g(fo, 'raftCurrentTerm')))
-        data = P.dumps(entry)
-        cut = rng.choice([B, max(1, len(data) // 3), max(1, len(data) // 2 + 1)]) if len(data) <= 4000 else max(B, len(data) // 4)
-        pieces = [data[p:p + cut] for p in range(0, len(data), cut)][:400]
-        labs = []
-        for i in range(len(pieces)):
-            lab = 'start' if i == 0 else ('finish' if i == len(pieces) - 1 else 'process')
-            if rng.random() < (0.5 / max(1, len(pieces)) if rng.random() < 0.7 else 0.0):
-                lab = rng.choice(['start', 'process', 'finish', 'bogus'])
-            labs.append(lab)
-        if rng.random() < 0.15:
-            pieces.append(pieces[-1])
-            labs.append(rng.choice(['finish', 'process']))
+        # Two families, each with an oracle that is exact:
+        #  (i)  the pieces of a real pickled entry, in order; the only label mutation is an early 'finish'
+        #       (the buffer is then a strict prefix of the pickle: loads raises, the buffer is kept), optionally
+        #       stray pieces after the reassembly completed (the buffer is '' again: TypeError);
+        #       pickle.loads accepts exactly the complete buffer;
+        #  (ii) arbitrary label sequences (start / process / finish / anything else, in any order) over bytes
+        #       that are no pickle at all: pickle.loads never accepts.
+        junk = rng.random() < 0.5
+        if not junk:
+            entry = (b'\x01' + b'x' * rng.choice([0, 5, B, 2 * B + 3][:3 if B > 5000 else 4]), prev_idx + 1,
+                     max(prev_term, g(fo, 'raftCurrentTerm')))
+            data = P.dumps(entry)
+            cut = rng.choice([B, max(1, len(data) // 3), max(1, len(data) // 2 + 1)]) if len(data) <= 4000 else max(B, len(data) // 4)
+            pieces = [data[p:p + cut] for p in range(0, len(data), cut)]
+            if len(pieces) > 400:
+                cut = (len(data) + 399) // 400
+                pieces = [data[p:p + cut] for p in range(0, len(data), cut)]
+            labs = []
+            for i in range(len(pieces)):
+                lab = 'start' if i == 0 else ('finish' if i == len(pieces) - 1 else 'process')
+                if lab == 'process' and rng.random() < 0.3 / len(pieces):
+                    lab = 'finish'
+                labs.append(lab)
+            if len(labs) >= 2 and rng.random() < 0.3:
+                for _ in range(rng.randrange(1, 3)):
+                    pieces.append(pieces[-1])
+                    labs.append(rng.choice(['finish', 'process', 'bogus']))
+            good = len(data)
+        else:
+            n_p = rng.randrange(1, 9)
+            pieces = [b'\xff' * rng.choice([1, 2, B, B + 1, 7]) for _ in range(n_p)]
+            pieces = [x[:5000] for x in pieces]
+            labs = [rng.choice(['start', 'start', 'process', 'process', 'finish', 'finish', 'bogus']) for _ in range(n_p)]
+            good = -1
         fo._SyncObj__recvTransmission = ''
-        grp = {'msgs': [], 'exp': [], 'good': len(data)}
+        grp = {'msgs': [], 'exp': [], 'good': good}
         for lab, d in zip(labs, pieces):
             msg = {'type': 'append_entries', 'term': g(fo, 'raftCurrentTerm'), 'commit_index': g(fo, 'raftCommitIndex'),
                    'prevLogIdx': prev_idx, 'prevLogTerm': prev_term, 'transmission': lab, 'data': d}
@@ -733,7 +790,8 @@ def _run_pure_job(job, out):
             q.clear()
         n_recv += 1
         wrong = labs != (['start'] + ['process'] * (len(labs) - 2) + ['finish'] if len(labs) >= 2 else labs)
-        dist['recv_mutated' if wrong else 'recv_wellformed'] = dist.get('recv_mutated' if wrong else 'recv_wellformed', 0) + 1
+        key = 'recv_junk_any_labels' if junk else ('recv_mutated' if wrong else 'recv_wellformed')
+        dist[key] = dist.get(key, 0) + 1
         calls.append(v_recv_case(grp))
     cl.destroy()
     out.update({'defs': ''.join(defs), 'evals': ['([%s] : list (option Z))' % ';\n  '.join(calls)], 'n_get': n_get, 'n_send': n_send, 'n_recv': n_recv,
